@@ -218,6 +218,7 @@ func (p *c14) Gen(seed uint64, i int, tier string) (any, bool) {
 	}
 	sc.Client = ClientCfg{AuthType: mech, User: pu, Pass: pp, TLSPolicy: "none"}
 	sc.Server.Auth = stored
+	sc.Server.Auth.RefuseUnannounced = true // a conforming server speaks the mechanisms it announced, no others
 	if !sc.Equal && r.Chance(1, 2) {
 		// go-mail sends the SASL cancel line after a refused exchange (inherited from net/smtp);
 		// servers refuse that stray line in different ways, none of which undoes the 535
@@ -498,7 +499,7 @@ func (p *c14) Shrink(scAny any) []any {
 
 func (p *c14) Info() PropInfo {
 	return PropInfo{
-		Rule: "seeded search, round-robin over 13 auth types (PLAIN, LOGIN, CRAM-MD5, XOAUTH2, SCRAM-SHA-1/-256, both PLUS variants over TLS 1.2 and 1.3, the NOENC types, AUTODISCOVER against drawn mechanism offers, custom SCRAM Auth values retried on a second connection after a scripted failure): user names and passwords/tokens of 1..80 characters over letters, digits, the specials , = =2C =3D blank @ : ; \\ \" ' < > % + / * ! n= r= ,p=, non-ASCII letters stable under SASLprep and PRECIS, and (non-SCRAM) NUL-free control characters; salts of 0..64 random bytes, iteration counts 1..20000 (small favoured), printable nonce suffixes, random CRAM challenges; presented credentials equal to the stored ones in half of the runs, otherwise minimally different (one byte, case, trailing blank, swapped, prefix); empty user names / passwords for LOGIN, CRAM-MD5 and XOAUTH2; custom CRAM-MD5/LOGIN/PLAIN Auth values serving two connections; optional extension attributes in the server-first-message; crypto/rand.Reader delivering short reads in half of the SCRAM retry scenarios; LOGIN prompts in eight spellings (incl. repeated, empty, swapped); a fifth of the runs connect, disconnect and connect again on the same Client; a third of the runs with debug logging on (a quarter of those with auth-data logging); every run is non-trivial; distinct = distinct (type, TLS version, difference kind, salt length, iterations, outcome, credentials)",
+		Rule: "seeded search, round-robin over 13 auth types (PLAIN, LOGIN, CRAM-MD5, XOAUTH2, SCRAM-SHA-1/-256, both PLUS variants over TLS 1.2 and 1.3, the NOENC types, AUTODISCOVER against drawn mechanism offers (the server answers 504 to a mechanism it did not announce), custom SCRAM Auth values retried on a second connection after a scripted failure): user names and passwords/tokens of 1..80 characters over letters, digits, the specials , = =2C =3D blank @ : ; \\ \" ' < > % + / * ! n= r= ,p=, non-ASCII letters stable under SASLprep and PRECIS, and (non-SCRAM) NUL-free control characters; salts of 0..64 random bytes, iteration counts 1..20000 (small favoured), printable nonce suffixes, random CRAM challenges; presented credentials equal to the stored ones in half of the runs, otherwise minimally different (one byte, case, trailing blank, swapped, prefix); empty user names / passwords for LOGIN, CRAM-MD5 and XOAUTH2; custom CRAM-MD5/LOGIN/PLAIN Auth values serving two connections; optional extension attributes in the server-first-message; crypto/rand.Reader delivering short reads in half of the SCRAM retry scenarios; LOGIN prompts in eight spellings (incl. repeated, empty, swapped); a fifth of the runs connect, disconnect and connect again on the same Client; a third of the runs with debug logging on (a quarter of those with auth-data logging); every run is non-trivial; distinct = distinct (type, TLS version, difference kind, salt length, iterations, outcome, credentials)",
 		Assumptions: []string{"credentials are compared as byte strings by the reference; code points are restricted to those on which SASLprep and PRECIS OpaqueString are the identity, SCRAM credentials carry no control characters (both profiles prohibit them)",
 			"PBKDF2 of the reference is crypto/pbkdf2 (standard library), independent of go-mail's internal/pbkdf2"},
 		Real:        []string{"go-mail Client.auth, smtp.Client.Auth, all SASL mechanisms, internal/pbkdf2, channel-binding derivation", "crypto/tls on both ends"},
